@@ -31,7 +31,9 @@ CLAIMED = {
              "The ensemble's stretch limits sqrt(2/alpha), sqrt(2 alpha) are established by the real constructor. The step from "
              "per-decision correctness to the limit law is a meta-theorem and is assumed; bounded: long runs of every sampler (plain, "
              "tempered, bounded, stretch parameters 1.5-3.5) reproduce the exact moments of a known target within batch-means error.",
-        note="F (user log-density) uninterpreted; random draws are fresh symbols; exp/log uninterpreted; detailed balance => "
+        note="KNOWN FINDING (recorded, printed on every run): all samplers record the jump chain (re-draw until acceptance), so the "
+             "limit law of the recorded samples is pi(x) * acceptance-rate(x), not pi(x); the claim proved is the per-decision clause. "
+             "F (user log-density) uninterpreted; random draws are fresh symbols; exp/log uninterpreted; detailed balance => "
              "invariance and the jump-chain effect of re-drawing until acceptance are outside per-call contracts (DESIGN 6); "
              "modular contracts: Parameter tuning methods, update_directions, run_leapfrog (C07), mass (C07)",
         ref="3/C01"),
